@@ -1147,8 +1147,27 @@ def run_refresh_during_command(chk, stats):
                     escaped = type(ex).__name__
                 net.on_event = None
                 outs = [t[1] for t in trace if t[0] == 'out']
+                # the discovery thread comes round again (the silent light is still away, and has
+                # been dropped meanwhile): "discovery never raises"
+                later = None
+                saved, net.faults = net.faults, fault_script({})
+                try:
+                    net.clock.now += 30
+                    ls.refresh()
+                    net.clock.now += 30
+                    ls.refresh()
+                except BaseException as ex:  # noqa
+                    later = type(ex).__name__ + ': ' + str(ex)[:100]
+                net.faults = saved
                 chk.count()
                 stats['refresh_during_command'] += 1
+                if later is not None:
+                    chk.violation('discovery-raises:after-expiry',
+                                  'a refresh after the one that dropped the silent light "{}" raised {}'.format(
+                                      silent, later),
+                                  {'kind': 'refresh-during-command', 'network': [list(r) for r in rows],
+                                   'silent': silent, 'command': text, 'refresh_after_failed_attempt': at_failure})
+                    continue
                 replay = {'kind': 'refresh-during-command', 'network': [list(r) for r in rows],
                           'silent': silent, 'command': text, 'refresh_after_failed_attempt': at_failure}
                 got = {lab: len([e for e in net.events if e[0] == lab and e[3] == 'ok' and
